@@ -77,11 +77,21 @@ func NewModules() *Modules {
 // e.g., foo.yang is named foo).  An error is returned if the file is not
 // found or there was an error parsing the file.
 func (ms *Modules) Read(name string) error {
+	paths := len(ms.Path)
 	name, data, err := ms.findFile(name)
 	if err != nil {
 		return err
 	}
-	return ms.Parse(data, name)
+	if err := ms.Parse(data, name); err != nil {
+		// A file that is rejected leaves nothing behind, also not its
+		// directory in the search path (findFile adds it).
+		for _, p := range ms.Path[paths:] {
+			delete(ms.pathMap, p)
+		}
+		ms.Path = ms.Path[:paths]
+		return err
+	}
+	return nil
 }
 
 // Parse parses data as YANG source and adds it to ms.  The name should reflect
